@@ -449,12 +449,19 @@ inductive Step where
   | mutate (i : Nat) (k : PStr) (op : ListOp)                  -- tag_i[k].<op>(…)
   | set (i : Nat) (k : Key) (v : PyVal)                        -- tag_i[k] = v
   | del (i : Nat) (k : PStr)                                   -- del tag_i[k]
+  | ctor (i : Nat) (isXml : Bool)                              -- Tag(name=tag_i.name, attrs=tag_i.attrs, is_xml=…)
 
-/-- `copy.copy(tag)` = `Tag.copy_self` (element.py:1800-1836). First a builder-less `Tag(None, None, name, …,
-    self.attrs, is_xml=self._is_xml)` is made — its attribute pass (an HTML/XML container) only matters if it raises —
-    then `clone.attrs = self.attrs.__class__()` is filled with the original's values (lists in new lists), assigned
-    through that class's own `__setitem__`. -/
+/-- `copy.copy(tag)` = `Tag.copy_self` (element.py:1800-1836): a builder-less `Tag(None, None, name, …, None,
+    is_xml=self._is_xml)` (no attributes handed to the constructor), then `clone.attrs = self.attrs.__class__()` is
+    filled with the original's values (lists in new lists), assigned through that class's own `__setitem__`. -/
 def copyTag (maxDigits : Nat) (lower : PStr → PStr) (name : PStr) (t : TagAttrs) : Res TagAttrs :=
+  (tagInit maxDigits lower Option.none t.isXml name Option.none).bind fun t0 =>
+    (copyInto maxDigits t.cls t.items []).bind fun d => .ok { t0 with cls := t.cls, items := d }
+
+/-- `copy_self` as it was before fixes/C17-copy-no-constructor-pass.diff: the constructor was handed `self.attrs`, so
+    its builder-less attribute pass (an HTML/XML container) ran first and its result was thrown away — unless it
+    raised. -/
+def copyTagOld (maxDigits : Nat) (lower : PStr → PStr) (name : PStr) (t : TagAttrs) : Res TagAttrs :=
   (tagInit maxDigits lower Option.none t.isXml name (some (t.cls, t.items))).bind fun t0 =>
     (copyInto maxDigits t.cls t.items []).bind fun d => .ok { t0 with cls := t.cls, items := d }
 
@@ -474,6 +481,11 @@ def histStep (maxDigits : Nat) (lower : PStr → PStr) (b : BuilderCfg) (st : Hi
   | .set i k v =>
     match st[i]? with
     | some (_, t) => (tagSet maxDigits t k v).bind fun t' => .ok (modifyAt st i (fun p => (p.1, t')))
+    | Option.none => .ok st
+  | .ctor i isXml =>
+    match st[i]? with
+    | some (n, t) =>
+      (tagInit maxDigits lower Option.none isXml n (some (t.cls, t.items))).bind fun t' => .ok (st ++ [(n, t')])
     | Option.none => .ok st
   | .del i k => .ok (modifyAt st i (fun p => (p.1, { p.2 with items := dictDel p.2.items k })))
 
@@ -574,5 +586,70 @@ def attributeString (maxDigits : Nat) (f : FmtCfg) (items : Items) : Res PStr :=
 
 def asciiLowerCp (c : Nat) : Nat := if 65 ≤ c ∧ c ≤ 90 then c + 32 else c
 def asciiLower (s : PStr) : PStr := s.map asciiLowerCp
+
+/-! ### builder options (`TreeBuilder.__init__`, builder/__init__.py:209-241; `HTMLParserTreeBuilder.__init__`,
+    `BeautifulSoupHTMLParser.__init__`, _htmlparser.py:84-93, 357-377) -/
+
+/-- the `multi_valued_attributes` argument: left out (the `USE_DEFAULT` sentinel, compared with `is`), `None`, or a map -/
+inductive MvaArg where
+  | useDefault
+  | none
+  | map (m : CdataMap)
+deriving DecidableEq, Repr
+
+/-- the `on_duplicate_attribute` argument -/
+inductive OnDupArg where
+  | absent                                            -- not given: `REPLACE`
+  | pyNone                                            -- `None`
+  | str (s : PStr)                                    -- a string
+  | callable (f : Items → PStr → PStr → Items)
+
+def replaceStr : PStr := [114, 101, 112, 108, 97, 99, 101]   -- "replace"
+def ignoreStr : PStr := [105, 103, 110, 111, 114, 101]        -- "ignore"
+
+/-- how `handle_starttag` reads the setting (`== IGNORE`, `in (None, REPLACE)`, else call it): `none` = a string that
+    is neither — Python then fails with `TypeError: 'str' object is not callable` at the first repeated attribute -/
+def resolveOnDup : OnDupArg → Option OnDup
+  | .absent | .pyNone => some .replace
+  | .str s => if s == ignoreStr then some .ignore else if s == replaceStr then some .replace else Option.none
+  | .callable f => some (.callable f)
+
+/-- `classDefault` = the builder class's `DEFAULT_CDATA_LIST_ATTRIBUTES`; the dictionary and list classes default to
+    `AttributeDict` and `AttributeValueList` -/
+def mkBuilder (classDefault : CdataMap) (isXml : Bool) (mva : MvaArg) (dictCls : Option DictClass)
+    (listCls : Option Nat) : BuilderCfg :=
+  { cdata := match mva with
+      | .useDefault => some classDefault
+      | .none => Option.none
+      | .map m => some m
+    dictCls := match dictCls with | some c => c | Option.none => .plain
+    listCls := match listCls with | some c => c | Option.none => 1
+    isXml := isXml }
+
+def hasDupKey : List PStr → Bool
+  | [] => false
+  | k :: ks => ks.contains k || hasDupKey ks
+
+/-- a start tag under the raw `on_duplicate_attribute` setting; `none` = Python's `TypeError` (a string that is no
+    policy is "called" at the first repeated attribute; without a repeated attribute the setting is never looked at) -/
+def parseStartTagArg (maxDigits : Nat) (lower : PStr → PStr) (b : BuilderCfg) (a : OnDupArg) (name : PStr)
+    (attrs : List (PStr × Option PStr)) : Option (Res TagAttrs) :=
+  match resolveOnDup a with
+  | some p => some (parseStartTag maxDigits lower b p name attrs)
+  | Option.none =>
+    if hasDupKey (attrs.map (·.1)) then Option.none
+    else some (parseStartTag maxDigits lower b .replace name attrs)
+
+/-! ### `re.findall(r"\S+", s)` as the regex engine proceeds: at each position try to match there (greedily), else
+    move one character on. `splitWs` is proved equal to it. -/
+
+def findallGo : Nat → PStr → List PStr
+  | 0, _ => []
+  | _ + 1, [] => []
+  | fuel + 1, c :: cs =>
+    if isWs c then findallGo fuel cs
+    else (c :: cs).takeWhile (fun x => !isWs x) :: findallGo fuel ((c :: cs).dropWhile (fun x => !isWs x))
+
+def findallNonWs (s : PStr) : List PStr := findallGo (s.length + 1) s
 
 end BS.Attrs
